@@ -193,11 +193,10 @@ fn run_job(sess: &mut Option<Session>, job: &Value) -> Value {
             }
         } else if let Some(q) = st.get("q").and_then(|v| v.as_str()) {
             let max = st.get("max").and_then(|v| v.as_u64()).unwrap_or(64) as usize;
-            let keepq = st.get("keep").and_then(|v| v.as_bool()).unwrap_or(keep);
             let r = s.query(q, max);
             let panicked = r.get("panic").is_some();
             res.push(r);
-            if panicked || (s.dirty && !keepq) {
+            if panicked {
                 *sess = None;
             }
         } else if st.get("new").is_some() {
@@ -221,9 +220,24 @@ fn run_job(sess: &mut Option<Session>, job: &Value) -> Value {
     json!({"id": id, "res": res, "us": t0.elapsed().as_micros() as u64})
 }
 
+/// The code under test prints warnings straight to the process's stdout (println!).
+/// Keep the protocol channel private: duplicate fd 1, then point fd 1 at /dev/null.
+pub fn protocol_out() -> std::fs::File {
+    use std::os::unix::io::FromRawFd;
+    unsafe {
+        let fd = libc::dup(1);
+        let devnull = libc::open(b"/dev/null\0".as_ptr() as *const libc::c_char, libc::O_WRONLY);
+        if devnull >= 0 {
+            libc::dup2(devnull, 1);
+            libc::close(devnull);
+        }
+        std::fs::File::from_raw_fd(fd)
+    }
+}
+
 fn cmd_exec() {
     let stdin = std::io::stdin();
-    let stdout = std::io::stdout();
+    let mut stdout = protocol_out();
     let mut sess: Option<Session> = None;
     for line in stdin.lock().lines() {
         let line = match line {
@@ -236,15 +250,13 @@ fn cmd_exec() {
         let job: Value = match serde_json::from_str(&line) {
             Ok(v) => v,
             Err(e) => {
-                let mut o = stdout.lock();
-                let _ = writeln!(o, "{}", json!({"id": null, "error": format!("bad job: {}", e)}));
+                let _ = writeln!(stdout, "{}", json!({"id": null, "error": format!("bad job: {}", e)}));
                 continue;
             }
         };
         let r = run_job(&mut sess, &job);
-        let mut o = stdout.lock();
-        let _ = writeln!(o, "{}", r);
-        let _ = o.flush();
+        let _ = writeln!(stdout, "{}", r);
+        let _ = stdout.flush();
     }
 }
 
